@@ -72,7 +72,7 @@ func init() {
 		CaseTimeoutS:     300,
 		Exhaustive:       func(string) bool { return false },
 		MinObs: func(tier string) map[string]int64 {
-			return map[string]int64{"runs": 600, "done_reported": 150, "commits_range_checked": 1000, "resume_checked": 800, "restarts": 500, "final_verdicts": 300, "commit_faults_hit": 100, "late_first_turns_without_start": 40}
+			return map[string]int64{"runs": 600, "done_reported": 150, "commits_range_checked": 1000, "resume_checked": 800, "restarts": 500, "final_verdicts": 300, "commit_faults_hit": 100, "late_first_turns_without_start": 30, "multi_source_runs": 15}
 		},
 		Extra: func(string) map[string]any {
 			return map[string]any{"grid_exhaustive": true, "grid_size": c06GridSize()}
@@ -453,7 +453,83 @@ func c06CommitFault(c *vk.Case, r *vk.RNG, p *c06Params, ps *pipeScenario, base 
 // c06SharedCase: a bounded integration next to an unbounded one on the same
 // source client (shared segment cache), optionally depending on it through a
 // filter reference. The unbounded one always runs first in a round.
+// c06MultiSource: one integration attached to two sources, each reference with its own start and stop: each pair
+// keeps to the range configured for ITS source.
+func c06MultiSource(c *vk.Case) {
+	r := c.R
+	d := &model.Decl{Name: namePoolIG[0], Enabled: true, Table: namePoolTbl[0], ColTypes: map[string]string{}, InFilter: map[string]model.Filter{}}
+	d.Block = []model.BlockField{{Name: "tx_hash", Column: "tx_hash", ColType: "bytea"}, {Name: "tx_value", Column: "tx_value", ColType: "numeric"}}
+	type rng struct{ start, stop uint64 }
+	ranges := map[string]rng{}
+	spec := &scen.Spec{}
+	for i, sn := range namePoolSrc[:2] {
+		st := uint64(r.Range(1, 6) + 7*i)
+		rg := rng{st, st + uint64(r.Range(1, 7))}
+		ranges[sn] = rg
+		d.Sources = append(d.Sources, model.SrcRef{Name: sn, Start: rg.start, Stop: rg.stop})
+		ch := simnode.NewChain(nextChainID(), gen.Content(gen.ChainOpts{Seed: r.U64(), MinTxs: 1, MaxTxs: 2}))
+		ch.Grow(int(rg.stop) + r.Range(2, 8))
+		spec.Sources = append(spec.Sources, scen.SourceSpec{Name: sn, ChainID: uint64(3 + i), Batch: vk.Pick(r, []int{1, 3, 10}), Concurrency: vk.Pick(r, []int{1, 2}), Poll: "1h", Node: simnode.Global().NewNode(ch)})
+	}
+	spec.Decls = []*model.Decl{d}
+	me := newMultiEnv(c, spec, "multi-source:")
+	if me == nil {
+		return
+	}
+	defer me.close()
+	if me.env.SetupErr != nil {
+		c.Violate("multi-source:setup-rejected", map[string]any{"config": string(me.env.ConfJSON), "error": me.env.SetupErr.Error()}, "configuration rejected: %v", me.env.SetupErr)
+		return
+	}
+	done := map[string]bool{}
+	for round := 0; round < 60 && len(done) < len(me.pairs) && len(c.Res.Violations) == 0; round++ {
+		p := vk.Pick(r, me.pairs)
+		if done[p.name()] {
+			continue
+		}
+		rg := ranges[p.src]
+		detail := merge(me.detail(), map[string]any{"pair": p.name(), "start": rg.start, "stop": rg.stop, "other_ranges": fmt.Sprint(ranges)})
+		res := me.stepSeq(p, false)
+		c.Obs("steps", 1)
+		for _, rec := range res.Commits {
+			if rec.Aborted || len(rec.Tx.Effects) == 0 {
+				continue
+			}
+			dc := p.pm.classify(rec)
+			c.Obs("commits_range_checked", 1)
+			for _, row := range dc.rowsIns {
+				if n, ok := rowBlockNum(dc.tbl, row); ok && (n > rg.stop || n < rg.start) {
+					c.Violate("multi-source:row-outside-own-range", merge(detail, map[string]any{"block": n}), "%s wrote a row for block %d outside the range [%d, %d] configured for its source", p.name(), n, rg.start, rg.stop)
+				}
+			}
+			for _, cr := range dc.cursorIns {
+				if cr.num > rg.stop || cr.num < rg.start {
+					c.Violate("multi-source:position-outside-own-range", merge(detail, map[string]any{"position": cr.num}), "%s recorded position %d outside the range [%d, %d] configured for its source", p.name(), cr.num, rg.start, rg.stop)
+				}
+			}
+		}
+		if errors.Is(res.Err, shovel.ErrDone) {
+			c.Obs("done_reported", 1)
+			pos, has := p.pm.captureLive().position()
+			if !has || pos != rg.stop {
+				c.Violate("multi-source:completion-not-at-own-stop", merge(detail, map[string]any{"position": pos}), "%s reported completion at position %d, its stop is %d", p.name(), pos, rg.stop)
+			}
+			done[p.name()] = true
+		}
+	}
+	if len(c.Res.Violations) == 0 && len(done) < len(me.pairs) {
+		c.Violate("multi-source:never-completed", me.detail(), "not every pair of the two-source integration reported completion although both sources are beyond the stops")
+	}
+	c.Obs("runs", 1)
+	c.Obs("multi_source_runs", 1)
+	c.SetSig("multi-source")
+}
+
 func c06SharedCase(c *vk.Case) {
+	if c.Index%4 == 3 {
+		c06MultiSource(c)
+		return
+	}
 	r := c.R
 	withDep := c.Index%2 == 0
 	pool := make([][]byte, 4)
